@@ -19,6 +19,10 @@ static int vx_pend_kind, vx_pend_path, vx_pend_tok; static bool vx_pending; stat
 static bool vx_fail(int* ec) { if (nondet_bool()) { int e = nondet_int(); __CPROVER_assume(e != 0); *ec = e; return true; } return false; }
 static void vx_pre(void) { __CPROVER_assert(!vx_pending, "[C15] the inverse of a successful edit is pushed onto the undo stack before anything else is done"); }
 static int vx_get(int path, int* ec) { vx_pre(); if (vx_fail(ec)) return -1; vx_tok++; vx_get_valid = true; vx_get_path = path; vx_get_tok = vx_tok; return vx_tok; }
+/* a value of the document taken by reference and moved out of (Json& r = jsonpointer::get(...); Json v(std::move(r));): the location is left moved-from
+ * (null) - a change of the document without an undo entry - until it is replaced by a new value */
+static bool vx_hollow; static int vx_hollow_path;
+static int vx_move_out(int tok) { __CPROVER_assert(vx_get_valid && tok == vx_get_tok, "[C15] only the value just read is moved out"); vx_hollow = true; vx_hollow_path = vx_get_path; return tok; }
 static unsigned vx_def_stamp; /* number of edits made when the definite form was computed */
 static int vx_definite(int path) { (void)path; vx_def_stamp = vx_edits; return P_NPATH; }
 static void vx_edit(int inverse, int path, bool needs_old)
@@ -29,7 +33,7 @@ static void vx_edit(int inverse, int path, bool needs_old)
 static void vx_add_if_absent(int path, int val, int* ec) { (void)val; vx_pre();
     if (path == P_NPATH) __CPROVER_assert(vx_def_stamp == vx_edits, "[C15] the definite form of a location ('-' resolved to an index) is computed on the document the insertion is applied to: for move, after the removal (RFC 6902 4.4: remove, then add)");
     if (vx_fail(ec)) return; vx_edit(op_type_remove, path, false); }
-static void vx_replace(int path, int val, int* ec) { (void)val; vx_pre(); if (vx_fail(ec)) return; vx_edit(op_type_replace, path, true); }
+static void vx_replace(int path, int val, int* ec) { (void)val; vx_pre(); if (vx_fail(ec)) return; vx_edit(op_type_replace, path, true); if (vx_hollow && vx_hollow_path == path) vx_hollow = false; }
 static void vx_remove(int path, int* ec) { vx_pre(); if (vx_fail(ec)) return; vx_edit(op_type_add, path, true); }
 static void vx_push(int kind, int path, int tok)
 {
@@ -52,7 +56,7 @@ static int vx_ec;
 void h_patch_operation(void)
 {
     vx_op = nondet_int(); vx_has_op = nondet_bool(); vx_has_path = nondet_bool(); vx_has_value = nondet_bool(); vx_has_from = nondet_bool(); vx_test_differs = nondet_bool(); vx_state = nondet_u8();
-    vx_tok = 0; vx_get_valid = false; vx_pending = false; vx_edits = 0; vx_pushes = 0; vx_ec = 0; vx_def_stamp = 0;
+    vx_tok = 0; vx_get_valid = false; vx_pending = false; vx_edits = 0; vx_pushes = 0; vx_ec = 0; vx_def_stamp = 0; vx_hollow = false;
     patch_operation(&vx_ec);
 }
 void h_definite_path(void)
